@@ -46,6 +46,7 @@ type JSONGenConfig struct {
 	Escapes   bool
 	Wide      bool // some containers get 17-60 children (size thresholds)
 	Deep      int  // > 0: one value wrapped in that many nested containers inside an object with later members
+	LeadWS    int  // > 0: that many white-space bytes before the first value (sniffing windows)
 }
 
 func DrawJSONConfig(t *simkit.Tape) JSONGenConfig {
@@ -63,6 +64,10 @@ func DrawJSONConfig(t *simkit.Tape) JSONGenConfig {
 	c.Wide = t.Bool(1, 6)
 	if t.Bool(1, 20) {
 		c.Deep = []int{33, 63, 64, 65, 66, 129, 300}[t.Draw(7)]
+	}
+	if t.Bool(1, 25) {
+		c.LeadWS = []int{510, 1020, 1024, 1030, 2050, 4100}[t.Draw(6)]
+		c.NonASCII = true
 	}
 	return c
 }
@@ -325,6 +330,9 @@ func (s *jsonSer) value(v *JV) {
 func SerialiseJSON(t *simkit.Tape, cfg JSONGenConfig, vals []*JV) []byte {
 	s := &jsonSer{t: t, cfg: cfg}
 	s.ws()
+	if cfg.LeadWS > 0 {
+		s.b.WriteString(strings.Repeat([]string{" ", "\n", " \t"}[t.Draw(3)], cfg.LeadWS))
+	}
 	for i, v := range vals {
 		if i > 0 {
 			s.b.WriteString([]string{" ", "\n", "\r\n", "\t"}[t.Draw(4)])
